@@ -428,6 +428,14 @@ def run(ctx, t0):
     facts = ctx.facts()
     r2, r3 = rule_guard(facts)
     rules = [rule_plumbing(facts), r2, r3, rule_option_readers(facts), rule_limit_rejections(facts)]
+    # the window needed is min(dictionary size, bytes produced): the ring wraps exactly at dict_size and never holds more
+    from rules import C01 as _c01
+    r5 = _c01.rule_window(facts)
+    r5.rule = "C10.R5"
+    r5.title = "the window never holds more than dict_size bytes (wrap exactly at dict_size, growth within [index + 1, dict_size])"
+    for f in r5.findings:
+        f.rule = "C10.R5"
+    rules.append(r5)
     expl = ("Static: provenance of the limit argument at every construction of the window, who-may-grow enumeration of "
             "the buffer with dominance of the limit test and equality of the tested and the grown length, who-reads "
             "enumeration of the limit field; limit taint (fields by name, parameters by position) against the guards of every error construction.")
